@@ -123,7 +123,7 @@ def decodeJoinRules (c : Option JVal) : Option JoinRules :=
   | none => none
   | some .null => some { rule := [], allow := [] }
   | some (.obj kvs) =>
-    let jr := decString (lookupField kvs b!"join_rule")
+    let jr := decString (lookupExact kvs b!"join_rule")
     let allow : Dec (List AllowRule) := match lookupField kvs b!"allow" with
       | none => ⟨[], false⟩
       | some .null => ⟨[], false⟩
@@ -227,8 +227,9 @@ def remoteClass (built : Event) (cls : String) (instate : Bool) (admin : Bytes) 
   else if cls == "replay" then
     some (remoteJoinOf { member (join "earlier") with eventID := b!"$replayed" } true, "same=0:sigs=hs5:red=0")
   else if cls == "custom" then
+    -- (with `instate` the copy cites our join as the sender's membership; the auth events do not enter the decision)
     let e := setMember (member [(b!"membership", .str b!"join")]) b!"type" (.str b!"x.custom")
-    let e := if instate then e else e
+    let _ := instate
     some (remoteJoinOf { e with eventID := b!"$custom" } false, "same=0:sigs=hs1:red=0")
   else if cls == "forged-content" then
     some (remoteJoinOf { member (join "chosen by the resident server") with eventID := b!"$forged" } false, "same=0:sigs=hs1:red=0")
